@@ -24,11 +24,12 @@ package store
 // The accumulated hash of a header as a pure function of the header object (assumed read frame: the header's
 // own fields; its metadata bytes are reached through a map and are outside the model).
 //@ func (*TxHeader).Alh
+//@   requires ver: hdr.Version == 0 || hdr.Version == 1
 //@   pure
 //@   reads hdr
 
 //@ func (*ImmuStore).readTx
-//@   ensures hdr: r0 == nil ==> tx.header != nil
+//@   ensures hdr: r0 == nil ==> tx.header != nil && (tx.header.Version == 0 || tx.header.Version == 1)
 //@   assigns internal, tx
 
 //@ func (*ImmuStore).wrapAppendableErr
@@ -44,11 +45,11 @@ package store
 // header and the entry digests. (`alh` is the local array the stored hash is read into.)
 //@ func (*txDataReader).readHeader
 //@   requires t.r != nil
-//@   ensures hdr: r1 == nil ==> r0 != nil && t.h == r0 && 0 <= r0.NEntries && r0.NEntries <= maxEntries
+//@   ensures hdr: r1 == nil ==> r0 != nil && t.h == r0 && 0 <= r0.NEntries && r0.NEntries <= maxEntries && (r0.Version == 0 || r0.Version == 1)
 //@   assigns internal, t
 
 //@ func (*txDataReader).buildAndValidateHtree
-//@   requires t.r != nil && t.h != nil && htree != nil
+//@   requires t.r != nil && t.h != nil && htree != nil && (t.h.Version == 0 || t.h.Version == 1)
 //@   ensures checked: r0 == nil && !old(t.skipIntegrityCheck) ==> t.h.Alh() == alh
 //@   assigns internal, t.h
 
